@@ -37,7 +37,7 @@ Proof. exact pair_up_order. Qed.
     (matching the manifest or not, too many, too few, manifest cut short or
     undecodable), each descriptor is either handed to the caller inside the
     listeners or closed by [receive_listeners] itself: none stays open and
-    unreferenced in the receiving process (after fix eff100b) *)
+    unreferenced in the receiving process (after fix 0a9a35c) *)
 Theorem receive_conserves :
   forall msg fds r closed, receive_acct msg fds = (r, closed) -> held_after r ++ closed = fds.
 Proof. exact receive_conserves_lemma. Qed.
